@@ -1,149 +1,58 @@
 /-
 C15 — An accepted program never reads an unbound name or falls off its end.
 
-Model: `Fpy/Model/Lang/Skel.lean` (skeleton language, oracle-driven run-time semantics `call`),
-`Fpy/Model/Lang/Check.lean` (`frontend` = `SyntaxCheck.check` + `Reachability.analyze` as the `@fpy`
-decorator runs them, statement rule by statement rule as the code is today = `Mode.real`; `prepass` =
-the definition/use analysis the byte-code interpreter runs when an accepted function is first called;
-`run` = `prepass` then `call`).  Helper lemmas (the invariant `sound`, `reach_normal`, `noZero_agrees`,
-`prepass_iff_strict`, `safe_of_frontend`): `Fpy/Proof/Check.lean`.
+Model: `Fpy/Model/Skel/Skel.lean` (skeleton language, oracle-driven run-time semantics `call`),
+`Fpy/Model/Skel/Check.lean` (`frontend Mode.real` = `SyntaxCheck.check` + `Reachability.analyze` as the
+`@fpy` decorator runs them, statement rule by statement rule as the code is today; `prepass` = the
+definition/use analysis the byte-code interpreter runs when an accepted function is first called;
+`run` = `prepass` then `call`).  Helper lemmas (the invariant `sound`, `reach_normal`, `real_duB`,
+`prepass_ok_of_frontend`, `safe_of_frontend`, and for the history `noZero_agrees`,
+`prepassLegacy_iff_strict`): `Fpy/Proof/Check.lean`.
 
-Full-strength statement (`accepted_safe`): `frontend Mode.real p = ok → ∀ fuel oracle, call/run … ∉
-{unbound _, fellOff}`.  It is FALSE for the code as it is, in two ways, both proved below at concrete
-witnesses:
-  * `accepted_safe_counterexample` — `def f(xs): for x in xs: pass; return x` is accepted; the loop target
-    is read after a loop that ran zero times (`_visit_for` merges with the environment in which the
-    target is already bound).  On the real interpreter the definition/use pre-pass already fails on
-    every input (`KeyError: x`).
-  * `accepted_safe_counterexample_return_branch` — `def f(a): if a: return a else: y = 1; return y` is
-    accepted (a terminated branch is absorbed by `_Env.merge`); its executions are fine, but the
-    interpreter's pre-pass knows nothing about terminated paths and fails on every input (`KeyError: y`).
-What is proved instead:
-  * `accepted_safe_partial`      — real front end, run-time semantics, every run on which no `for` loop
-    with a named target runs zero times (`partial_covers_nonzero_runs` says these are genuine runs);
-  * `accepted_safe_fixed`        — full strength (every oracle) for the front end with `_visit_for` repaired;
-  * `accepted_safe_run_partial`  — the whole pipeline (pre-pass + execution) for accepted programs that
-    the strict discipline also accepts, and `run_safe_iff_strict` — this is exact: an accepted program
-    runs without the forbidden failures iff the strict discipline accepts it;
-  * no-fall-through holds at full strength (it is part of each of the above);
-  * `rejects_leak_*`             — names introduced only inside a one-armed `if`, one branch, a `while`
-    or `for` body, or a comprehension are rejected when used afterwards; loop targets are NOT
-    (`for_target_leaks`), contrary to the language guide.
+The property, at full strength, for the code as it is (after the repairs of F6 and F21):
+  * `accepted_safe` — `frontend Mode.real p = ok → ∀ fuel oracle, run false fuel p oracle ∉
+    {unbound _, fellOff}`: the interpreter's pre-pass succeeds and no execution — whatever the branch
+    outcomes and trip counts, zero-trip loops and untaken one-armed `if`s included — reads an unbound
+    name or reaches the end of the body without a `return`;
+  * `accepted_prepass_ok`, `accepted_safe_exec` — its two halves;
+  * `rejects_leak_*`, `rejects_leaks` — names introduced only inside a one-armed `if`, one branch, a
+    `while` or `for` body, a comprehension, and loop targets are rejected when used afterwards, as the
+    language guide states.
+History (why the repairs were needed; `Mode.legacy`, `prepassLegacy`, `runLegacy` = the code before):
+  * `legacy_accepted_safe_counterexample` (F6) — `def f(xs): for x in xs: pass; return x` was accepted
+    and reads `x` unbound when the loop runs zero times; through the interpreter it failed on every
+    input (`legacy_counterexample_every_input`); `legacy_for_target_leaks`;
+  * `legacy_counterexample_return_branch` (F21) — `def f(a): if a: return a else: y = 1; return y` was
+    (and is) accepted and its executions are fine, but the old pre-pass failed on every input;
+  * `legacy_accepted_safe_partial`, `noZero_only_removes_runs`, `legacy_run_safe_iff_strict` — what did
+    hold, and the exact extent of the two defects.
 -/
 import Fpy.Proof.Check
 namespace Fpy.Props.C15
 open Fpy.Skel
 
-/-! ### the witnesses -/
+/-! ### the property -/
 
-/-- `def f(xs): for x in xs: pass; return x`   (`xs = 0`, `x = 1`) -/
-def pLoopTarget : Func :=
-  ⟨[0], .cons (.for [1] (.var 0) (.cons .pass .nil)) (.cons (.ret (.var 1)) .nil)⟩
+/-- the interpreter's definition/use pre-pass never fails on an accepted program -/
+theorem accepted_prepass_ok (p : Func) (h : frontend Mode.real p = .ok ()) : prepass p = .ok () :=
+  prepass_ok_of_frontend h
 
-/-- `def f(a): if a: return a else: y = 1; return y`   (`a = 0`, `y = 1`) -/
-def pReturnBranch : Func :=
-  ⟨[0], .cons (.ite (.var 0) (.cons (.ret (.var 0)) .nil) (.cons (.assign [1] .lit) .nil))
-          (.cons (.ret (.var 1)) .nil)⟩
-
-theorem pLoopTarget_accepted : frontend Mode.real pLoopTarget = .ok () := by rfl
-theorem pLoopTarget_zero_trip : call false 5 pLoopTarget [0] = .unbound 1 := by decide
-theorem pLoopTarget_one_trip : call false 9 pLoopTarget [1] = .returned := by decide
-theorem pLoopTarget_prepass : prepass pLoopTarget = .error 1 := by rfl
-theorem pLoopTarget_fixed_rejects : frontend Mode.fixFor pLoopTarget = .error (.notAllPaths 1) := by rfl
-
-theorem pReturnBranch_accepted : frontend Mode.real pReturnBranch = .ok () := by rfl
-theorem pReturnBranch_fixFor_accepted : frontend Mode.fixFor pReturnBranch = .ok () := by rfl
-theorem pReturnBranch_prepass : prepass pReturnBranch = .error 1 := by rfl
-theorem pReturnBranch_strict_rejects : frontend Mode.strict pReturnBranch = .error (.notAllPaths 1) := by rfl
-
-/-- **The full-strength statement is false for the code as it is** (run-time semantics alone):
-the accepted `pLoopTarget` reads its loop target unbound when the loop runs zero times. -/
-theorem accepted_safe_counterexample :
-    ¬ ∀ (p : Func), frontend Mode.real p = .ok () → ∀ fuel ch, (call false fuel p ch).bad = false := by
-  intro h
-  have := h pLoopTarget pLoopTarget_accepted 5 [0]
-  rw [pLoopTarget_zero_trip] at this
-  cases this
-
-/-- … and through the real interpreter it fails on EVERY input: the pre-pass raises `KeyError: x`. -/
-theorem accepted_safe_counterexample_every_input (z : Bool) (fuel : Nat) (ch : List Nat) :
-    run z fuel pLoopTarget ch = .unbound 1 := by
-  simp [run, pLoopTarget_prepass]
-
-/-- **Second counterexample** (whole pipeline): `pReturnBranch` is accepted, each of its executions is
-fine, yet calling it fails on every input in the interpreter's definition/use pre-pass. -/
-theorem accepted_safe_counterexample_return_branch :
-    frontend Mode.real pReturnBranch = .ok () ∧
-    (∀ z fuel ch, run z fuel pReturnBranch ch = .unbound 1) ∧
-    (∀ fuel ch, (call false fuel pReturnBranch ch).bad = false) :=
-  ⟨pReturnBranch_accepted, fun z fuel ch => by simp [run, pReturnBranch_prepass],
-   safe_of_frontend Mode.fixFor false (Or.inl rfl) _ pReturnBranch_fixFor_accepted⟩
-
-/-! ### what holds -/
-
-/-- **accepted_safe, partial**: for the front end AS IT IS, on every run on which no `for` loop with a
-named target runs zero times (`z = true`: such runs end in `.excluded`), an accepted program neither
-reads an unbound name nor falls off its end.  Missing for full strength: exactly the excluded runs
-(`accepted_safe_counterexample`). -/
-theorem accepted_safe_partial (p : Func) (h : frontend Mode.real p = .ok ()) (fuel : Nat) (ch : List Nat) :
-    (call true fuel p ch).bad = false :=
-  safe_of_frontend Mode.real true (Or.inr rfl) p h fuel ch
-
-/-- the restriction only removes runs: a restricted run that is not `.excluded` is the unrestricted run -/
-theorem partial_covers_nonzero_runs (p : Func) (fuel : Nat) (ch : List Nat)
-    (h : call true fuel p ch ≠ .excluded) : call false fuel p ch = call true fuel p ch := by
-  unfold call at h ⊢
-  have := (noZero_agrees fuel).2.1 p.args p.body ch
-  cases hr : execB true fuel p.args p.body ch with
-  | excluded => rw [hr] at h; exact absurd rfl h
-  | normal σ' ch' => rw [this (by rw [hr]; simp), hr]
-  | returned => rw [this (by rw [hr]; simp), hr]
-  | unbound x => rw [this (by rw [hr]; simp), hr]
-  | timeout => rw [this (by rw [hr]; simp), hr]
-
-/-- **accepted_safe for the repaired `_visit_for`** (merge the body environment with the PRE-loop
-environment), full strength: every oracle, zero-trip loops and untaken one-armed `if`s included. -/
-theorem accepted_safe_fixed (p : Func) (h : frontend Mode.fixFor p = .ok ()) (fuel : Nat) (ch : List Nat) :
+/-- no execution of an accepted program reads an unbound name or falls off the end: every oracle
+(branch outcomes, trip counts — zero included), every fuel -/
+theorem accepted_safe_exec (p : Func) (h : frontend Mode.real p = .ok ()) (fuel : Nat) (ch : List Nat) :
     (call false fuel p ch).bad = false :=
-  safe_of_frontend Mode.fixFor false (Or.inl rfl) p h fuel ch
+  safe_of_frontend Mode.real false (Or.inl rfl) p h fuel ch
 
-/-- **accepted_safe for the whole pipeline, partial**: an accepted program that the strict discipline
-(loop targets do not outlive the loop; a returning branch lends nothing to its sibling) also accepts
-passes the interpreter's pre-pass and then neither reads an unbound name nor falls off its end, on
-every input.  Missing for full strength: accepted programs the strict discipline rejects — and there
-the property does fail (`run_safe_iff_strict`). -/
-theorem accepted_safe_run_partial (p : Func) (_h : frontend Mode.real p = .ok ())
-    (hs : frontend Mode.strict p = .ok ()) (fuel : Nat) (ch : List Nat) : (run false fuel p ch).bad = false := by
-  have hp := ((frontend_strict_iff p).1 hs).1
-  simp only [run, hp]
-  exact safe_of_frontend Mode.strict false (Or.inl rfl) p hs fuel ch
+/-- **accepted_safe** (full strength, whole pipeline): calling an accepted function — pre-pass, then
+execution under any oracle — neither fails on an unbound variable nor falls off the end. -/
+theorem accepted_safe (p : Func) (h : frontend Mode.real p = .ok ()) (fuel : Nat) (ch : List Nat) :
+    (run false fuel p ch).bad = false := by
+  simp only [run, runWith]
+  have hp : prepassWith true p = .ok () := accepted_prepass_ok p h
+  rw [hp]
+  exact accepted_safe_exec p h fuel ch
 
-/-- **Exact extent of the defect**: an accepted program runs (pre-pass + execution) without the
-forbidden failures on every input iff the strict discipline accepts it; otherwise it fails with an
-unbound-variable error on EVERY input. -/
-theorem run_safe_iff_strict (p : Func) (h : frontend Mode.real p = .ok ()) :
-    (∀ fuel ch, (run false fuel p ch).bad = false) ↔ frontend Mode.strict p = .ok () := by
-  constructor
-  · intro hsafe
-    have hr : reachCheck p = .ok () := by
-      unfold frontend at h
-      obtain ⟨_, _, h2⟩ := bind_ok h
-      exact h2
-    rw [frontend_strict_iff]
-    refine ⟨?_, hr⟩
-    cases hp : prepass p with
-    | ok u => cases u; rfl
-    | error x =>
-      have := hsafe 0 []
-      simp [run, hp, Final.bad] at this
-  · intro hs fuel ch
-    exact accepted_safe_run_partial p h hs fuel ch
-
-theorem run_unsafe_every_input (p : Func) (x : Name) (hp : prepass p = .error x)
-    (z : Bool) (fuel : Nat) (ch : List Nat) : run z fuel p ch = .unbound x := by
-  simp [run, hp]
-
-/-! ### leaks that are rejected (as the code behaves) -/
+/-! ### leaks are rejected -/
 
 /-- a use of a name that is not marked defined-on-all-paths is rejected, whatever follows -/
 theorem use_rejected (m : Mode) (env : Env) (x : Name) (rest : Block) (h : env.get x ≠ some true) :
@@ -167,40 +76,18 @@ theorem rejects_leak_while (m : Mode) (env env' : Env) (c : Expr) (b : Block) (x
   obtain ⟨body, _, _, rfl⟩ := checkS_while h
   exact fun h' => hx (Env.merge_left hl h')
 
-/-- names introduced only inside a `for` body (not the loop targets) are not defined after the loop -/
-theorem rejects_leak_for_body (m : Mode) (env env' : Env) (ts : List Name) (it : Expr) (b : Block) (x : Name)
-    (hl : env.term = false) (hx : env.get x ≠ some true) (hts : x ∉ ts)
-    (h : checkS m env (.for ts it b) = .ok env') : env'.get x ≠ some true := by
-  obtain ⟨_, body, _, rfl⟩ := checkS_for h
-  intro h'
-  cases hfl : m.forLeak with
-  | false =>
-    simp only [hfl, Bool.false_eq_true, if_false] at h'
-    exact hx (Env.merge_left hl h')
-  | true =>
-    simp only [hfl, if_true] at h'
-    have := Env.merge_left (a := env.extendAll ts) (by simp [hl]) h'
-    rw [Env.extendAll_get] at this
-    rcases this with h1 | h1
-    · exact hts h1
-    · exact hx h1
-
-/-- with `_visit_for` repaired, loop targets are not defined after the loop either -/
-theorem rejects_leak_for_target_fixed (env env' : Env) (ts : List Name) (it : Expr) (b : Block) (x : Name)
+/-- names introduced by a `for` loop — in its body OR as its target — are not defined after it -/
+theorem rejects_leak_for (env env' : Env) (ts : List Name) (it : Expr) (b : Block) (x : Name)
     (hl : env.term = false) (hx : env.get x ≠ some true)
-    (h : checkS Mode.fixFor env (.for ts it b) = .ok env') : env'.get x ≠ some true := by
+    (h : checkS Mode.real env (.for ts it b) = .ok env') : env'.get x ≠ some true := by
   obtain ⟨_, body, _, rfl⟩ := checkS_for h
   exact fun h' => hx (Env.merge_left hl h')
 
-/-- **as the code is, a loop target IS defined after the loop** (contrary to the language guide):
-for any live environment in which the iterable checks, `for x in it: pass` marks `x` defined -/
-theorem for_target_leaks (env : Env) (x : Name) (it : Expr) (hl : env.term = false)
-    (hit : checkE env it = .ok ()) :
-    ∃ env', checkS Mode.real env (.for [x] it (.cons .pass .nil)) = .ok env' ∧ env'.get x = some true := by
-  refine ⟨(env.extendAll [x]).merge (env.extendAll [x]), ?_, ?_⟩
-  · simp only [checkS, checkB, hit]; rfl
-  · refine Env.merge_both (by simp [hl]) (by simp [hl]) ?_ ?_ <;>
-      (rw [Env.extendAll_get]; exact Or.inl (List.mem_singleton.2 rfl))
+/-- in particular a loop target is not defined after its loop -/
+theorem rejects_leak_for_target (env env' : Env) (x : Name) (it : Expr) (b : Block)
+    (hl : env.term = false) (hx : env.get x ≠ some true)
+    (h : checkS Mode.real env (.for [x] it b) = .ok env') : env'.get x ≠ some true :=
+  rejects_leak_for env env' [x] it b x hl hx h
 
 /-- a name introduced in only one branch of an `if`/`else` whose other branch continues is not
 defined afterwards -/
@@ -225,13 +112,123 @@ theorem rejects_leak_comprehension (m : Mode) (env env' : Env) (ts cts : List Na
   rw [Env.extendAll_get_none _ _ _ hts]
   exact hx
 
-/-- the headline corollary: `if c: x = …` followed by a use of `x` is rejected -/
+/-- the headline corollaries: `if c: x = …` / `for x in …: …` followed by a use of `x` is rejected -/
 theorem rejects_leaks (m : Mode) (env : Env) (c : Expr) (t rest : Block) (x : Name)
     (hl : env.term = false) (hx : env.get x ≠ some true) :
     ∀ env', checkB m env (.cons (.if1 c t) (.cons (.ret (.var x)) rest)) ≠ .ok env' := by
   intro env' hc
   obtain ⟨env1, h1, h2⟩ := checkB_cons hc
   exact use_rejected m env1 x rest (rejects_leak_if1 m env env1 c t x hl hx h1) env' h2
+
+theorem rejects_leaks_for_target (env : Env) (it : Expr) (b rest : Block) (x : Name)
+    (hl : env.term = false) (hx : env.get x ≠ some true) :
+    ∀ env', checkB Mode.real env (.cons (.for [x] it b) (.cons (.ret (.var x)) rest)) ≠ .ok env' := by
+  intro env' hc
+  obtain ⟨env1, h1, h2⟩ := checkB_cons hc
+  exact use_rejected Mode.real env1 x rest (rejects_leak_for_target env env1 x it b hl hx h1) env' h2
+
+/-! ### history: the code before the repairs of F6 and F21 -/
+
+/-- `def f(xs): for x in xs: pass; return x`   (`xs = 0`, `x = 1`) -/
+def pLoopTarget : Func :=
+  ⟨[0], .cons (.for [1] (.var 0) (.cons .pass .nil)) (.cons (.ret (.var 1)) .nil)⟩
+
+/-- `def f(a): if a: return a else: y = 1; return y`   (`a = 0`, `y = 1`) -/
+def pReturnBranch : Func :=
+  ⟨[0], .cons (.ite (.var 0) (.cons (.ret (.var 0)) .nil) (.cons (.assign [1] .lit) .nil))
+          (.cons (.ret (.var 1)) .nil)⟩
+
+theorem pLoopTarget_legacy_accepted : frontend Mode.legacy pLoopTarget = .ok () := by rfl
+theorem pLoopTarget_zero_trip : call false 5 pLoopTarget [0] = .unbound 1 := by decide
+theorem pLoopTarget_one_trip : call false 9 pLoopTarget [1] = .returned := by decide
+theorem pLoopTarget_legacy_prepass : prepassLegacy pLoopTarget = .error 1 := by rfl
+/-- today it is rejected -/
+theorem pLoopTarget_rejected : frontend Mode.real pLoopTarget = .error (.notAllPaths 1) := by rfl
+
+theorem pReturnBranch_legacy_accepted : frontend Mode.legacy pReturnBranch = .ok () := by rfl
+theorem pReturnBranch_legacy_prepass : prepassLegacy pReturnBranch = .error 1 := by rfl
+theorem pReturnBranch_strict_rejects : frontend Mode.strict pReturnBranch = .error (.notAllPaths 1) := by rfl
+/-- today it is accepted, passes the pre-pass and runs -/
+theorem pReturnBranch_accepted : frontend Mode.real pReturnBranch = .ok () := by rfl
+theorem pReturnBranch_prepass : prepass pReturnBranch = .ok () := by rfl
+theorem pReturnBranch_runs : run false 9 pReturnBranch [1] = .returned ∧ run false 9 pReturnBranch [0] = .returned := by
+  decide
+
+/-- **F6**: the full-strength statement was false before the repair (run-time semantics alone): the
+accepted `pLoopTarget` reads its loop target unbound when the loop runs zero times. -/
+theorem legacy_accepted_safe_counterexample :
+    ¬ ∀ (p : Func), frontend Mode.legacy p = .ok () → ∀ fuel ch, (call false fuel p ch).bad = false := by
+  intro h
+  have := h pLoopTarget pLoopTarget_legacy_accepted 5 [0]
+  rw [pLoopTarget_zero_trip] at this
+  cases this
+
+/-- … and through the interpreter it failed on EVERY input: the pre-pass raised `KeyError: x`. -/
+theorem legacy_counterexample_every_input (z : Bool) (fuel : Nat) (ch : List Nat) :
+    runLegacy z fuel pLoopTarget ch = .unbound 1 := by
+  have h : prepassWith false pLoopTarget = .error 1 := pLoopTarget_legacy_prepass
+  simp [runLegacy, runWith, h]
+
+/-- **F21**: `pReturnBranch` was accepted, each of its executions is fine, yet calling it failed on
+every input in the interpreter's definition/use pre-pass. -/
+theorem legacy_counterexample_return_branch :
+    frontend Mode.legacy pReturnBranch = .ok () ∧
+    (∀ z fuel ch, runLegacy z fuel pReturnBranch ch = .unbound 1) ∧
+    (∀ fuel ch, (call false fuel pReturnBranch ch).bad = false) := by
+  refine ⟨pReturnBranch_legacy_accepted, fun z fuel ch => ?_, accepted_safe_exec _ pReturnBranch_accepted⟩
+  have h : prepassWith false pReturnBranch = .error 1 := pReturnBranch_legacy_prepass
+  simp [runLegacy, runWith, h]
+
+/-- as the code was, a loop target WAS defined after the loop (contrary to the language guide) -/
+theorem legacy_for_target_leaks (env : Env) (x : Name) (it : Expr) (hl : env.term = false)
+    (hit : checkE env it = .ok ()) :
+    ∃ env', checkS Mode.legacy env (.for [x] it (.cons .pass .nil)) = .ok env' ∧ env'.get x = some true := by
+  refine ⟨(env.extendAll [x]).merge (env.extendAll [x]), ?_, ?_⟩
+  · simp only [checkS, checkB, hit]; rfl
+  · refine Env.merge_both (by simp [hl]) (by simp [hl]) ?_ ?_ <;>
+      (rw [Env.extendAll_get]; exact Or.inl (List.mem_singleton.2 rfl))
+
+/-- what the old front end did guarantee: on every run on which no `for` loop with a named target
+runs zero times (`z = true`: such runs end in `.excluded`), no unbound read and no fall-through -/
+theorem legacy_accepted_safe_partial (p : Func) (h : frontend Mode.legacy p = .ok ()) (fuel : Nat) (ch : List Nat) :
+    (call true fuel p ch).bad = false :=
+  safe_of_frontend Mode.legacy true (Or.inr rfl) p h fuel ch
+
+/-- the restriction only removes runs: a restricted run that is not `.excluded` is the unrestricted run -/
+theorem noZero_only_removes_runs (p : Func) (fuel : Nat) (ch : List Nat)
+    (h : call true fuel p ch ≠ .excluded) : call false fuel p ch = call true fuel p ch := by
+  unfold call at h ⊢
+  have := (noZero_agrees fuel).2.1 p.args p.body ch
+  cases hr : execB true fuel p.args p.body ch with
+  | excluded => rw [hr] at h; exact absurd rfl h
+  | normal σ' ch' => rw [this (by rw [hr]; simp), hr]
+  | returned => rw [this (by rw [hr]; simp), hr]
+  | unbound x => rw [this (by rw [hr]; simp), hr]
+  | timeout => rw [this (by rw [hr]; simp), hr]
+
+/-- exact extent of the two defects: a program accepted by the old front end ran (old pre-pass +
+execution) without the forbidden failures on every input iff the strict discipline accepts it;
+otherwise it failed with an unbound-variable error on every input -/
+theorem legacy_run_safe_iff_strict (p : Func) (h : frontend Mode.legacy p = .ok ()) :
+    (∀ fuel ch, (runLegacy false fuel p ch).bad = false) ↔ frontend Mode.strict p = .ok () := by
+  constructor
+  · intro hsafe
+    have hr : reachCheck p = .ok () := by
+      unfold frontend at h
+      obtain ⟨_, _, h2⟩ := bind_ok h
+      exact h2
+    rw [frontend_strict_iff]
+    refine ⟨?_, hr⟩
+    cases hp : prepassLegacy p with
+    | ok u => cases u; rfl
+    | error x =>
+      have hp' : prepassWith false p = .error x := hp
+      have := hsafe 0 []
+      simp [runLegacy, runWith, hp', Final.bad] at this
+  · intro hs fuel ch
+    have hp : prepassWith false p = .ok () := ((frontend_strict_iff p).1 hs).1
+    simp only [runLegacy, runWith, hp]
+    exact safe_of_frontend Mode.strict false (Or.inl rfl) p hs fuel ch
 
 /-! ### non-vacuity -/
 
@@ -244,15 +241,21 @@ def pOk : Func :=
     (.cons (.ret (.var 2)) .nil)))⟩
 
 example : frontend Mode.real pOk = .ok () := by rfl
-example : frontend Mode.strict pOk = .ok () := by rfl
-example : call false 30 pOk [2, 1, 0, 1, 0] = .returned := by decide
-example : call true 30 pOk [2, 1, 0, 1, 0] = .returned := by decide
-example : call false 30 pOk [0, 0] = .returned := by decide
-example : call true 30 pOk [0, 0] = .excluded := by decide
+example : prepass pOk = .ok () := by rfl
+example : run false 30 pOk [2, 1, 0, 1, 0] = .returned := by decide
 example : run false 30 pOk [0, 0] = .returned := by decide
+/-- an accepted program with a returning branch that lends a name to what follows -/
+example : frontend Mode.real pReturnBranch = .ok () ∧ run false 9 pReturnBranch [0] = .returned := by
+  constructor
+  · rfl
+  · decide
 /-- the leak hypotheses are satisfiable: `if a: y = 1` then `return y` in the initial environment -/
 example : ∀ env', checkB Mode.real (Env.init [0]) (.cons (.if1 (.var 0) (.cons (.assign [1] .lit) .nil))
     (.cons (.ret (.var 1)) .nil)) ≠ .ok env' :=
   rejects_leaks Mode.real (Env.init [0]) _ _ _ 1 rfl (by decide)
+/-- … and the loop-target one: `for x in xs: pass` then `return x` -/
+example : ∀ env', checkB Mode.real (Env.init [0]) (.cons (.for [1] (.var 0) (.cons .pass .nil))
+    (.cons (.ret (.var 1)) .nil)) ≠ .ok env' :=
+  rejects_leaks_for_target (Env.init [0]) _ _ _ 1 rfl (by decide)
 
 end Fpy.Props.C15
